@@ -420,3 +420,6 @@ def summarize(results, cases):
     trees = sum(r.get('obs', {}).get('dfs_trees_completed', 0) for r in results)
     n_dfs = sum(1 for c in cases if c['kind'] == 'dfs')
     return {'dfs_trees': n_dfs, 'dfs_trees_exhausted': trees}
+
+
+RULE = RULE + '; results that are exception objects; submissions that raise; the same parmap Stream object iterated three times (first pass complete / break / close / worker-raises)'
